@@ -14,6 +14,7 @@ package linter
 func CodeMask(sql string) []bool {
 	mask := make([]bool, len(sql))
 	n := len(sql)
+	var tags *dollarTags // built on the first dollar sign
 	i := 0
 	for i < n {
 		c := sql[i]
@@ -79,7 +80,10 @@ func CodeMask(sql string) []bool {
 			}
 			if j < n && sql[j] == '$' {
 				tag := sql[i : j+1]
-				end := indexFrom(sql, tag, j+1)
+				if tags == nil {
+					tags = indexDollarTags(sql)
+				}
+				end := tags.next(tag, j+1)
 				if end >= 0 {
 					i = end + len(tag)
 					continue
@@ -95,11 +99,47 @@ func CodeMask(sql string) []bool {
 	return mask
 }
 
-func indexFrom(s, sub string, from int) int {
-	for i := from; i+len(sub) <= len(s); i++ {
-		if s[i:i+len(sub)] == sub {
-			return i
+// dollarTags records where every $tag$ occurs, so that the closing tag of a
+// dollar-quoted string is found without searching the rest of the text again
+// for each opening tag (many unclosed tags made that quadratic).
+type dollarTags struct {
+	at     map[string][]int // tag text -> ascending start offsets
+	cursor map[string]int   // per tag: first entry of at[tag] not yet passed
+}
+
+func isDollarTagChar(c byte, first bool) bool {
+	return c == '_' || c >= 'a' && c <= 'z' || c >= 'A' && c <= 'Z' || (!first && c >= '0' && c <= '9')
+}
+
+func indexDollarTags(sql string) *dollarTags {
+	t := &dollarTags{at: map[string][]int{}, cursor: map[string]int{}}
+	for i := 0; i < len(sql); i++ {
+		if sql[i] != '$' {
+			continue
 		}
+		j := i + 1
+		for j < len(sql) && isDollarTagChar(sql[j], j == i+1) {
+			j++
+		}
+		if j < len(sql) && sql[j] == '$' {
+			tag := sql[i : j+1]
+			t.at[tag] = append(t.at[tag], i)
+		}
+	}
+	return t
+}
+
+// next returns the first offset >= from at which tag occurs, or -1.
+// Calls for one tag must come with non-decreasing from.
+func (t *dollarTags) next(tag string, from int) int {
+	list := t.at[tag]
+	c := t.cursor[tag]
+	for c < len(list) && list[c] < from {
+		c++
+	}
+	t.cursor[tag] = c
+	if c < len(list) {
+		return list[c]
 	}
 	return -1
 }
